@@ -3,7 +3,7 @@
 
 use serde_json::{json, Value};
 
-#[derive(Clone, Debug, PartialEq)]
+#[derive(Clone, Debug, PartialEq, serde::Serialize, serde::Deserialize)]
 pub enum LensStep {
     Field(String),
     Idx(u32),
@@ -11,7 +11,7 @@ pub enum LensStep {
     ByScalar(String),
 }
 
-#[derive(Clone, Debug, PartialEq)]
+#[derive(Clone, Debug, PartialEq, serde::Serialize, serde::Deserialize)]
 pub enum Arg {
     Str(String),
     Num(i64),
@@ -84,13 +84,13 @@ impl std::fmt::Display for Arg {
     }
 }
 
-#[derive(Clone, Debug, PartialEq)]
+#[derive(Clone, Debug, PartialEq, serde::Serialize, serde::Deserialize)]
 pub enum FailKind {
     Lit(i64, String),
     Arg(Arg),
 }
 
-#[derive(Clone, Debug, PartialEq)]
+#[derive(Clone, Debug, PartialEq, serde::Serialize, serde::Deserialize)]
 pub enum I {
     Call { peer: Arg, svc: Arg, func: Arg, args: Vec<Arg>, out: Option<String> },
     Seq(Box<I>, Box<I>),
